@@ -1,6 +1,7 @@
 package props
 
 import (
+	"time"
 	"fmt"
 	"strings"
 	"unicode/utf8"
@@ -31,9 +32,10 @@ func init() {
 }
 
 type c18Variant struct {
-	name  string
-	table bool
-	build func(noStyle bool) runner
+	name   string
+	table  bool
+	build  func(noStyle bool) runner
+	follow bool // `today --follow`: two frames through hook H2; the screen-control sequences are not styling and stay
 }
 
 func runC18(e *core.Env) {
@@ -81,26 +83,27 @@ func runC18(e *core.Env) {
 				wt := r.Bool()
 				vr = c18Variant{fmt.Sprintf("print with-totals=%v", wt), false, func(ns bool) runner {
 					return &cli.Print{WithTotals: wt, NoStyleArgs: util.NoStyleArgs{NoStyle: ns}, WarnArgs: nw, InputFilesArgs: in}
-				}}
+				}, false}
 			case 1:
 				vr = c18Variant{fmt.Sprintf("total --diff now=%v decimal=%v", nowOK, dec), false, func(ns bool) runner {
 					return &cli.Total{DiffArgs: util.DiffArgs{Diff: true}, NowArgs: util.NowArgs{Now: nowOK}, DecimalArgs: util.DecimalArgs{Decimal: dec}, NoStyleArgs: util.NoStyleArgs{NoStyle: ns}, WarnArgs: nw, InputFilesArgs: in}
-				}}
+				}, false}
 			case 2, 3:
 				agg := r.Pick("d", "w", "m", "q", "y")
 				fill, chart := r.Bool() && span <= 3000, r.Bool()
 				vr = c18Variant{fmt.Sprintf("report -a %s fill=%v diff=%v chart=%v decimal=%v now=%v", agg, fill, diff, chart, dec, nowOK), true, func(ns bool) runner {
 					return &cli.Report{AggregateBy: agg, Fill: fill, Chart: chart, DiffArgs: util.DiffArgs{Diff: diff}, NowArgs: util.NowArgs{Now: nowOK}, DecimalArgs: util.DecimalArgs{Decimal: dec},
 						NoStyleArgs: util.NoStyleArgs{NoStyle: ns}, WarnArgs: nw, InputFilesArgs: in}
-				}}
+				}, false}
 			case 4:
 				vals, cnt := r.Chance(2, 3), r.Bool()
 				vr = c18Variant{fmt.Sprintf("tags values=%v count=%v decimal=%v", vals, cnt, dec), true, func(ns bool) runner {
 					return &cli.Tags{Values: vals, Count: cnt, DecimalArgs: util.DecimalArgs{Decimal: dec}, NoStyleArgs: util.NoStyleArgs{NoStyle: ns}, WarnArgs: nw, InputFilesArgs: in}
-				}}
+				}, false}
 			case 5:
-				vr = c18Variant{fmt.Sprintf("today diff=%v now=%v decimal=%v", diff, nowOK, dec), true, func(ns bool) runner {
-					return &cli.Today{DiffArgs: util.DiffArgs{Diff: diff}, NowArgs: util.NowArgs{Now: nowOK}, DecimalArgs: util.DecimalArgs{Decimal: dec}, NoStyleArgs: util.NoStyleArgs{NoStyle: ns}, WarnArgs: nw, InputFilesArgs: in}
+				follow := r.Chance(1, 3)
+				vr = c18Variant{name: fmt.Sprintf("today diff=%v now=%v decimal=%v follow=%v", diff, nowOK, dec, follow), table: !follow, follow: follow, build: func(ns bool) runner {
+					return &cli.Today{Follow: follow, DiffArgs: util.DiffArgs{Diff: diff}, NowArgs: util.NowArgs{Now: nowOK}, DecimalArgs: util.DecimalArgs{Decimal: dec}, NoStyleArgs: util.NoStyleArgs{NoStyle: ns}, WarnArgs: nw, InputFilesArgs: in}
 				}}
 			}
 			e.Begin(caseID, []byte(fmt.Sprintf("clock=%s variant=%s\n%s", clock.Format("2006-01-02T15:04"), vr.name, d.Text)))
@@ -118,6 +121,10 @@ func c18Check(e *core.Env, d *gen.Out, vr c18Variant, clock timeT, caseID int64)
 			panic("harness: " + err.Error())
 		}
 		cmd := vr.build(noStyle)
+		if vr.follow {
+			util.SetVerifRepeatHooks(&util.VerifRepeatHooks{Interval: time.Microsecond, AfterIteration: func(counter int64) bool { return counter >= 2 }})
+			defer util.SetVerifRepeatHooks(nil)
+		}
 		var failed bool
 		pi := core.Guard(func() {
 			if aerr := cmd.Run(ctx); aerr != nil {
@@ -138,7 +145,7 @@ func c18Check(e *core.Env, d *gen.Out, vr c18Variant, clock timeT, caseID int64)
 		e.Count("command_failed_skipped", 1)
 		return
 	}
-	if strings.Contains(plain, "\x1b") {
+	if strings.Contains(plain, "\x1b") && !vr.follow || len(sgrFind(plain)) > 0 {
 		e.Violation("no-colour-output-contains-escape", fmt.Sprintf("klog %s under no_colour prints an escape sequence", vr.name), w)
 		return
 	}
